@@ -108,6 +108,21 @@ def c08(ctx):
             ctx.violation('correspondence', 'dump differs between model and implementation', d)
         if sort == 0:
             texts = [x[1] if x[0] == 'ok' else None for x in im]
+    # the written text does not depend on the local time zone of the process (a TIMESTAMP is UTC text, not an instant to convert)
+    import common
+    tzn = 0
+    for tz in ('XYZ-3', 'EST5', 'JST-9'):
+        with common.local_tz(tz):
+            for es, t in list(zip(cases, texts))[:400 if quick else 4000]:
+                if t is None or not any(e[0] == 'ts' for e in es):
+                    continue
+                tzn += 1
+                x = impl.dump(es, 0)
+                if x[0] != 'ok' or x[1] != t:
+                    ctx.violation('spec', f'with the local time zone {tz} the entries are written differently than under UTC: {str(x)[:160]} instead of {t[:120]!r}',
+                                  {'entries': es, 'tz': tz, 'text_utc': t, 'written': x})
+                    break
+    ctx.cov['engines'].setdefault('text:dump(sort=0)', {})['dumps_repeated_under_other_time_zones'] = tzn
     loads = []
     for es, t in zip(cases, texts):
         if t is None:
